@@ -37,7 +37,11 @@ for i in range(max(len(b), len(c))):
     cc = c[i] if i < len(c) else ["(missing: the run on the current tree ended here, crash or timeout)", []]
     if bb != cc:
         res["differs"] = True
+        k = 0
+        while k < len(bb[1]) and k < len(cc[1]) and bb[1][k] == cc[1][k]:
+            k += 1
         res["first"] = {"scenario": bb[0] if bb[0] == cc[0] else bb[0] + " / " + cc[0],
+                        "first_differing_line": {"verified_tree": bb[1][k] if k < len(bb[1]) else "(no such line)", "current_tree": cc[1][k] if k < len(cc[1]) else "(no such line)"},
                         "verified_tree": "\n".join(bb[1])[:1500], "current_tree": "\n".join(cc[1])[:1500]}
         res["differing_scenarios"] = sum(1 for j in range(min(len(b), len(c))) if b[j] != c[j]) + abs(len(b) - len(c))
         break
